@@ -822,6 +822,17 @@ example : mapFuncOverBlocks exEnv
       | _, _ => .error .type)
     [.blk [[1, 2], [3]], .one [10]] [("out", .blk [[7, 7], [7]])]
     = .ok (.blk [[17, 27], [37]]) := by decide
+-- the void wrapper (an assertion that every entry is positive): all blocks pass / the second block fails first
+example : mapVoidFuncOverBlocks
+    (fun a _ => match a with
+      | [.one (x : List Int)] => if x.all (0 < ·) then .ok () else .error .other
+      | _ => .error .type)
+    [.blk [[1, 2], [3]]] [] = .ok () := by decide
+example : mapVoidFuncOverBlocks
+    (fun a _ => match a with
+      | [.one (x : List Int)] => if x.all (0 < ·) then .ok () else (if x.length = 1 then .error .value else .error .other)
+      | _ => .error .type)
+    [.blk [[1, 2], [-3], [0, 0]]] [] = .error .value := by decide
 -- the hypotheses of `C13_map_blocks_partial` are satisfiable: first block found after a scalar
 example : FirstBlk ([PyVal.one [0], PyVal.blk [[1, 2], [3]]] ++ ([] : List (String × PyVal (List Int))).map Prod.snd)
     [[1, 2], [3]] := ⟨[PyVal.one [0]], [], rfl, by simp [PyVal.isBlk]⟩
@@ -879,6 +890,11 @@ example : randomWrapped exEnvN exPrims ["key", "shape", "dtype"] exDraw
 example : randomWrapped exEnvN exPrims ["key", "shape", "dtype"] exDraw
     [.tree (.tup [.int 3]), .oth (.oth ()), .oth .none, .oth (.seed 5)] (.oth .none) (.oth .none) []
     = .ok (.one 108, 210) := by decide
+-- the hypotheses of `C13_random_nested` are satisfiable: effective key, binding, nested shape
+example : EffKey exPrims (.oth (.key 7)) (.oth .none) (.oth (.key 7)) := .given _ _ rfl rfl
+example : EffKey exPrims (.oth .none) (.oth .none) (.oth (.key 100)) := .default _ _ 100 rfl rfl rfl
+example : bindArgs ["key", "shape", "dtype"] [(.oth (.key 7) : RVal Nat Nat Unit), .tree (.tup [.tup [.int 2], .tup [.int 2]])] []
+    = .ok [("key", .oth (.key 7)), ("shape", .tree (.tup [.tup [.int 2], .tup [.int 2]]))] := by rfl
 -- key and seed together
 example : randomWrapped exEnvN exPrims ["key", "shape", "dtype"] exDraw
     [.tree (.tup [.int 3])] (.oth (.key 7)) (.oth (.seed 1)) [] = .error .value := by decide
